@@ -42,6 +42,22 @@ def handle : List String → Option String
   | ["c02_binreg", a0, h, n, rc, vs] => some (match parseRat? a0, parseRat? h, n.toNat?, parseList? parseRat? vs with
       | some a0, some h, some n, some vs => showList (fun v => toString (binReg a0 h n (rc == "1") v)) vs
       | _, _, _, _ => "bad-op")
+  | ["c02_discretize", pd, bd, rc, bins, data] => some (
+      match parseDT? pd, parseDT? bd, parseList? parseRat? bins, parseList? parseRat? data with
+      | some pd, some bd, some bins, some data =>
+        let arr := bins.toArray
+        let edge := fun k => arr.getD k 0
+        if bins.length ≥ 2 ∧ bins.getD 0 0 ≤ bins.getD 1 0 ∧ denOf bd bins.length edge ≤ 0 then "unsupported"
+        else match discretizeF pd bd (rc == "1") bins data with
+          | .ok l => showList showRat l
+          | .error .valueError => "valueerror"
+          | .error .indexError => "indexerror"
+          | .error .csepException => "csepexception"
+      | _, _, _, _ => "bad-op")
+  | ["c02_hyp", bins, ps] => some (match parseList? parseRat? bins, parseList? parseRat? ps with
+      | some bins, some ps =>
+          if regularGridB bins then showList (fun p => if pointOKB bins p then "1" else "0") ps else "irregular"
+      | _, _ => "bad-op")
   | ["c02_table", name] => some (match name with
       | "mw" => showList showRat (ofRaw Tables.mwRaw)
       | "m595" => showList showRat (ofRaw Tables.m595Raw)
